@@ -9,7 +9,7 @@ def check(tier, seed):
     return G.generic_check(PID, "exploration", tier, seed, coq=False,
         rule=RULE + "; engine-internal monitor: on-demand generator drained under random generator histories (PV move from this / another position, killers, history and counter-move tables, reuse across positions with and without reset, half-drained predecessors) vs batch generation for modes all/non-quiet/quiet x evasion x UsePromNonQuiet; captures+quiet partition; evasion subset/no duplicates/complete for legal moves; HasLegalMove; oracle: batch pseudo-legal list and HasLegalMove vs the spec",
         streams=[dict(name="modes_monitor", kind="monitor", shards=lambda t: 8,
-                      args=lambda t, s, sh, path: ["c08-monitor", 1500 if q else 40000, s * 1000 + sh]),
+                      args=lambda t, s, sh, path: ["c08-monitor", 1500 if t == "quick" else 40000, s * 1000 + sh]),
                  pos_stream("pseudo_legal_vs_spec", ["pseudo-legal-move-list", "has-legal-move"], npos_quick=300, npos_thorough=3000)])
 
 
